@@ -36,6 +36,7 @@ func (c18) Gen(tier string, seed int64) []fw.Unit {
 		}
 	}
 	r := rngFor(seed, "C18")
+	us = append(us, fw.U("bitlist.batch", nil, "batch", r.Int63()))
 	nrand := 160
 	maxOps := 20000
 	if tier == "thorough" {
@@ -297,6 +298,30 @@ func (p c18) Exec(c *fw.Ctx, u *fw.Unit) {
 		rec(1)
 		c.Cover("exhaustive_depth", fmt.Sprint(depth))
 		c.Cover("start", fmt.Sprint(c18Starts[si]))
+	case "bitlist.batch":
+		// a single large AddBit batch onto lists of various lengths
+		r := rngFor(u.Int(0), "blbatch")
+		for _, st := range []int{-1, 0, 1, 31, 32, 33, 4000, 4095, 4096, 4097, 8191, 32767} {
+			for _, nb := range []int{1, 31, 32, 33, 127, 4095, 4096, 4097, 4100, 5000, 8192, 8193, 9000, 12289, 16385, 40000, 70001} {
+				c.Eval()
+				h := newHist(c, st)
+				bits := make([]bool, nb)
+				for i := range bits {
+					bits[i] = r.Intn(3) != 0
+				}
+				h.trace = append(h.trace, fmt.Sprintf("addbit(batch of %d)", nb))
+				h.guardOp("AddBit", func() { h.bl.AddBit(bits...) })
+				h.model = append(h.model, bits...)
+				h.checkLen("batch")
+				if !h.bad {
+					h.applyReduced(3)
+					h.full("end")
+				}
+				if !h.bad {
+					c.Nontrivial("batch", st, nb)
+				}
+			}
+		}
 	case "bitlist.rand":
 		st, n, sd := int(u.Int(0)), int(u.Int(1)), u.Int(2)
 		r := rngFor(sd, "bl")
@@ -315,6 +340,16 @@ func (p c18) Exec(c *fw.Ctx, u *fw.Unit) {
 		for k := 0; k < n && !h.bad; k++ {
 			ln := len(h.model)
 			switch op := r.Intn(100); {
+			case op < 1 && ln < 300000:
+				// one variadic call with a large batch, not ending on a word boundary
+				nb := pick(r, []int{33, 100, 1000, 4097, 5000, 8191, 10001, 33333})
+				bits := make([]bool, nb)
+				for i := range bits {
+					bits[i] = r.Intn(2) == 1
+				}
+				h.trace = append(h.trace, fmt.Sprintf("addbit(batch of %d)", nb))
+				h.guardOp("AddBit", func() { h.bl.AddBit(bits...) })
+				h.model = append(h.model, bits...)
 			case op < 30:
 				nb := 1 + r.Intn(3)
 				bits := make([]bool, nb)
